@@ -17,7 +17,7 @@ use crate::{
 use rand::Rng;
 use weechess_core::{
     notation::{into_notation, lan::Lan, try_from_notation, Fen},
-    Move, MoveQuery, Piece, Square, State,
+    Color, Move, MoveQuery, Piece, PieceIndex, Square, State,
 };
 
 const DEFAULT_MAX_SEARCH_TIME: f64 = 4.0;
@@ -121,10 +121,10 @@ impl Client {
                             Some(&"fen") => {
                                 let fen = pos[1..].join(" ");
                                 match try_from_notation::<State, Fen>(&fen) {
-                                    Ok(state) => {
+                                    Ok(state) if Self::is_playable(&state) => {
                                         current_position = state;
                                     }
-                                    Err(..) => {
+                                    Ok(..) | Err(..) => {
                                         println!("info string invalid fen position");
                                         continue;
                                     }
@@ -226,6 +226,23 @@ impl Client {
         }
 
         Ok(())
+    }
+}
+
+impl Client {
+    /// The search and the evaluator assume one king per side and that the side which
+    /// just moved did not leave its king in check (it could be captured otherwise).
+    fn is_playable(state: &State) -> bool {
+        let kings = |color| {
+            state
+                .board()
+                .piece_occupancy(PieceIndex::new(color, Piece::King))
+                .count_ones()
+        };
+
+        kings(Color::White) == 1
+            && kings(Color::Black) == 1
+            && !state.board().is_check(!state.turn_to_move())
     }
 }
 
